@@ -35,6 +35,7 @@ GLUE_HEAD = r'''
 #include <stdint.h>
 #include "tr_builder.h"
 #include "tr_verifier.h"
+#include "tr_json_parser.h"
 static flatcc_builder_t builder, *B = &builder;
 static uint32_t rd32(const void *p) { const uint8_t *b = p; return (uint32_t)b[0] | ((uint32_t)b[1] << 8) | ((uint32_t)b[2] << 16) | ((uint32_t)b[3] << 24); }
 static void R(const char *type, const char *variant, const char *acceptor, int got, int want)
@@ -138,6 +139,33 @@ static void fileid_%(n)s(void)
     }
 }
 ''' % {'n': n})
+    # buffers finished by the generated JSON parser with an explicit identifier argument (type identifier bytes, file identifier, null)
+    for n, kind, h in types:
+        out.append('''
+static void json_%(n)s(void)
+{
+    static const char json[] = "{\\"x\\":7}";
+    void *buf; size_t size; int ws, rc;
+    for (ws = 0; ws < 2; ++ws) {
+        const char *vn = ws ? "json_typed_with_size" : "json_typed";
+        flatcc_builder_reset(B);
+        rc = %(n)s_parse_json_as_root(B, 0, json, sizeof(json) - 1, ws ? flatcc_json_parser_f_with_size : 0, %(n)s_type_identifier);
+        if (rc) { R("%(n)s", vn, "parse_json_as_root", 0, 1); continue; }
+        buf = flatcc_builder_finalize_aligned_buffer(B, &size);
+        if (!buf) { R("%(n)s", vn, "parse_json_as_root:finalize", 0, 1); continue; }
+        R("%(n)s", vn, "stored_identifier_is_type_hash", rd32((uint8_t *)buf + (ws ? 8 : 4)) == (uint32_t)%(n)s_type_hash, 1);
+        if (ws) R("%(n)s", vn, "verify_as_typed_root_with_size", %(n)s_verify_as_typed_root_with_size(buf, size) == 0, 1);
+        else { R("%(n)s", vn, "verify_as_typed_root", %(n)s_verify_as_typed_root(buf, size) == 0, 1); R("%(n)s", vn, "as_typed_root", %(n)s_as_typed_root(buf) != 0, 1); }
+        flatcc_builder_aligned_free(buf);
+    }
+    flatcc_builder_reset(B);
+    rc = %(n)s_parse_json_as_root(B, 0, json, sizeof(json) - 1, 0, "ABCD");
+    if (rc) { R("%(n)s", "json_fileid", "parse_json_as_root", 0, 1); return; }
+    buf = flatcc_builder_finalize_aligned_buffer(B, &size);
+    if (buf) { R("%(n)s", "json_fileid", "stored_identifier_is_file_identifier", rd32((uint8_t *)buf + 4) == 0x44434241u, 1);
+               R("%(n)s", "json_fileid", "verify_as_root", %(n)s_verify_as_root(buf, size) == 0, 1); flatcc_builder_aligned_free(buf); }
+}
+''' % {'n': n})
     # nested builders
     for i, (n, kind, h) in enumerate(types):
         d = {'n': n, 'f': 'P_n%d' % i, 'i': i}
@@ -179,7 +207,7 @@ static void *nested_%(n)s(int variant, size_t *size)
 ''' % d)
     out.append('int main(void)\n{\n    void *buf; size_t size; int v; P_table_t p; const uint8_t *nb;\n    flatcc_builder_init(B);\n')
     for i, (n, kind, h) in enumerate(types):
-        out.append('    fileid_%s();\n' % n)
+        out.append('    fileid_%s();\n    json_%s();\n' % (n, n))
         out.append('    for (v = 0; v < 6; ++v) {\n        static const char *vn[] = { "create", "create_with_size", "start_end", "start_end_with_size", "clone", "clone_with_size" };\n'
                    '        int ws = v & 1;\n        buf = build_%s(v, &size);\n        if (!buf) { R("%s", vn[v], "build", 0, 1); continue; }\n'
                    '        R("%s", vn[v], "stored_identifier_is_type_hash", rd32((uint8_t *)buf + (ws ? 8 : 4)) == (uint32_t)%s_type_hash, 1);\n' % (n, n, n, n))
@@ -223,7 +251,7 @@ def typed_roots(ctx):
         decls.append('}\nroot_type P;\nfile_identifier "ABCD";\n')
         d = os.path.join(ctx.bdir, 'typed%d' % si); os.makedirs(d, exist_ok=True)
         fbs = os.path.join(d, 'tr.fbs'); open(fbs, 'w').write(''.join(decls))
-        rc, out = ctx.gen(fbs, d, opts=('-a',))
+        rc, out = ctx.gen(fbs, d, opts=('-a', '--json'))
         if rc != 0:
             ctx.violation('typed-root:schema-rejected', 'flatcc rejected the typed-root schema: ' + out[:300], {'schema': ''.join(decls)})
             continue
